@@ -370,7 +370,7 @@ def main() -> int:
     sd = seed()
     n_fw = 220 if t == "quick" else 1500
     passes = 150 if t == "quick" else 300
-    for case, st, res in run_cases(run_fw_case, [(i, sd, passes, (0, 0, 700)[i % 3]) for i in range(n_fw)]):
+    for case, st, res in run_cases(run_fw_case, [(i, sd, passes, (0, 0, 700, 2 ** 32 - 40, 2 ** 32 - 100, 2 ** 32 - 3, 0, 2 ** 32 - 250, 2 ** 32 - 1000)[i % 9]) for i in range(n_fw)]):
         if st != "ok":
             rep.inconclusive_because(f"case {case} failed: {res[-300:]}")
             continue
@@ -425,7 +425,7 @@ def main() -> int:
     if rep.counters.get("fw_animation_steps", 0) == 0:
         rep.inconclusive_because("no firmware animation step observed")
     rep.rule = ("firmware: 1-2 LCDs (cols {1,2,5,8,16,20}), 1-2 animated rows each, 4 styles x texts {empty .. 3*cols} x speed {0,1,20,50,200} x loop on/off, loop "
-                "period {0,1,10,50,60,250} ms, clock starting at {0,700} ms, 150-300 passes; monitors: no delay() in the injected tick prologue or while "
+                "period {0,1,10,50,60,250} ms, clock starting at {0, 700, 2^32-{3,40,100,250,1000}} ms (32-bit unsigned long: millis() rolls over inside the run), 150-300 passes; monitors: no delay() in the injected tick prologue or while "
                 "starting, writes only inside the prologue, frames inside the row and exactly cols wide, static rows untouched, <= 1 step per pass, step "
                 "spacing >= speed_ms, non-looping animations stop within B = 2(len+cols)+4 steps, looping ones still step in the last quarter of >= 3B "
                 "passes. host: icontract postconditions on LCD.animate/LCD.tick + the same invariants over random positive non-decreasing tick schedules")
